@@ -30,7 +30,7 @@ func init() {
 			"R4": "retry resumes at b[wn:], only for temporary net.Errors with retries left; count accumulates",
 			"R5": "serialisation buffer released by defer only",
 		},
-		MinInstances: map[string]int{"R1": 3, "R2": 2, "R3": 3, "R4": 2, "R5": 1},
+		MinInstances: map[string]int{"R1": 3, "R2": 2, "R3": 2, "R4": 2, "R5": 1},
 		Assumptions:  []string{"io.Writer contract: Write returns 0 <= n <= len(p)", "sync.Mutex provides mutual exclusion"},
 	})
 }
@@ -278,8 +278,8 @@ func (c *Ctx) c07HandOff() {
 	// loops
 	seen := map[*ssa.Function]bool{}
 	for _, h := range hand {
-		g := flow.StaticCallee(h)
-		if seen[g] {
+		g := c.writeLoopFn(flow.StaticCallee(h), 0)
+		if g == nil || seen[g] {
 			continue
 		}
 		seen[g] = true
@@ -287,18 +287,30 @@ func (c *Ctx) c07HandOff() {
 	}
 }
 
+// isTransportWriteInvoke: w.Write(b) / w.WriteStream(b, s) on an interface, or a call of a
+// func([]byte) (int, error) parameter (a write function handed to a shared retry helper).
 func isTransportWriteInvoke(in ssa.Instruction) bool {
 	call, ok := in.(*ssa.Call)
-	if !ok || !call.Call.IsInvoke() {
+	if !ok {
 		return false
 	}
-	n := call.Call.Method.Name()
-	return n == "Write" || n == "WriteStream"
+	if call.Call.IsInvoke() {
+		n := call.Call.Method.Name()
+		return n == "Write" || n == "WriteStream"
+	}
+	if p, isP := call.Call.Value.(*ssa.Parameter); isP {
+		if sig, ok := p.Type().Underlying().(*types.Signature); ok && sig.Params().Len() == 1 && sig.Results().Len() == 2 && isByteSlice(sig.Params().At(0).Type()) && isErrorType(sig.Results().At(1).Type()) {
+			return true
+		}
+	}
+	return false
 }
 
-func (c *Ctx) hasWriteLoop(g *ssa.Function) bool {
-	if g.Blocks == nil {
-		return false
+// writeLoopFn: the function that actually contains the write loop for hand-off callee g: g
+// itself, or a helper g delegates to with its buffer parameter (depth 2).
+func (c *Ctx) writeLoopFn(g *ssa.Function, depth int) *ssa.Function {
+	if g == nil || g.Blocks == nil || depth > 2 {
+		return nil
 	}
 	loops := flow.Loops(g)
 	found := false
@@ -307,8 +319,31 @@ func (c *Ctx) hasWriteLoop(g *ssa.Function) bool {
 			found = true
 		}
 	})
-	return found
+	if found {
+		return g
+	}
+	bp := byteParam(g)
+	for _, ci := range flow.CallInstrs(g) {
+		h := flow.StaticCallee(ci)
+		if h == nil || !c.P.IsLibrary(h) {
+			continue
+		}
+		passes := false
+		for _, a := range ci.Common().Args {
+			if bp != nil && a == ssa.Value(bp) {
+				passes = true
+			}
+		}
+		if passes {
+			if f := c.writeLoopFn(h, depth+1); f != nil {
+				return f
+			}
+		}
+	}
+	return nil
 }
+
+func (c *Ctx) hasWriteLoop(g *ssa.Function) bool { return c.writeLoopFn(g, 0) != nil }
 
 func (c *Ctx) c07Loop(g *ssa.Function) {
 	r := c.R
@@ -378,7 +413,7 @@ func (c *Ctx) c07Loop(g *ssa.Function) {
 			}
 			sawResume = true
 		}
-		if !sawResume {
+		if !sawResume && okSlice {
 			okSlice, why = false, "a retry writes the same slice again although the transport accepted part of it: the accepted bytes are sent twice"
 		}
 	}
